@@ -147,7 +147,9 @@ def sequence(ctx, r, idx):
 		if r.random() < 0.06:
 			# datagrams without the CMD prefix: nothing may come back, nothing may change
 			junk = r.choice((b"RSP POWERON 0\0", b"IND CLOCK 5\0", b"cmd POWERON\0", b"", b"\0", b"POWERON\0", b" CMD POWERON\0",
-				b"CM", b"XCMD POWEROFF\0"))
+				b"CM", b"XCMD POWEROFF\0",
+				# octets that are no text in front of a command do not make it one
+				b"\xff\xfeCMD POWEROFF\0", b"\x80CMD RXTUNE 935200\0", b"\xc3CMD POWERON\0", b"\xffCMD SETFORMAT 1\0", b"\xf0\x9fCMD RFMUTE 1\0"))
 			node.l1_ctrl.sendto(junk, node.ctrl_port)
 			try:
 				node.trx.ctrl_if.handle_rx()
@@ -283,6 +285,10 @@ def probe(ctx, r, bench, specs, log):
 
 def arfcn_khz(arfcn):
 	""" (downlink kHz, uplink kHz) per 3GPP TS 45.005 for the bands used here. """
+	if arfcn & 0x8000:
+		# PCS 1900 shares the numbers 512..810 with DCS 1800; the firmware / trxcon numbering marks it with bit 15
+		ul = 1850200 + 200 * ((arfcn & 0x3ff) - 512)
+		return ul + 80000, ul
 	if 1 <= arfcn <= 124:
 		ul = 890000 + 200 * arfcn
 		return ul + 45000, ul
@@ -415,13 +421,13 @@ def trxcon_matrix(ctx, binary, r, rounds):
 					ctx.count("trxcon_measure_results_parsed")
 			run_phy("POWERON", 1)
 			# SETFREQ_H1 -> SETFH with 1..64 channels, the longest trxcon can encode
-			band = r.choice(("P900", "DCS"))
-			base = 1 if band == "P900" else 512
+			band = r.choice(("P900", "DCS", "PCS"))
+			base = 1 if band == "P900" else 512 if band == "DCS" else (0x8000 | 512)
 			for want_n in (64, r.randint(1, 63), 1):
 				n = want_n
 				res = None
 				while n >= 1:
-					ma = sorted(r.sample(range(base, base + (124 if band == "P900" else 370)), n))
+					ma = sorted(r.sample(range(base, base + {"P900": 124, "DCS": 370, "PCS": 299}[band]), n))
 					hsn, maio = r.randrange(64), r.randrange(n)
 					res = run_phy("H1 %d %d %d %s" % (hsn, maio, n, " ".join(map(str, ma))), 1)
 					if res is None or res[0] == 0:
